@@ -1,0 +1,21 @@
+//go:build verif
+
+// Machine-checked specifications for package hopserver (comment-only file;
+// read by /verif/bin/hopvc).
+
+package hopserver
+
+// Match returns the FIRST virtual host whose pattern glob-matches the name
+// (globR is the recursive definition of glob matching in pkg/glob's contract
+// file), or nil if none matches.
+//@ func (vhosts VirtualHosts) Match(name string) (result *VirtualHost)
+//@   property C20
+//@   ensures result == nil ==> (forall k int :: 0 <= k && k < len(vhosts) ==>
+//@       !globR(arr(vhosts[k].Pattern), off(vhosts[k].Pattern), arr(name), off(name), len(vhosts[k].Pattern), len(name)))
+//@   ensures result != nil ==> (exists m int :: 0 <= m && m < len(vhosts) && result == &vhosts[m] &&
+//@       globR(arr(vhosts[m].Pattern), off(vhosts[m].Pattern), arr(name), off(name), len(vhosts[m].Pattern), len(name)) &&
+//@       (forall k int :: 0 <= k && k < m ==>
+//@           !globR(arr(vhosts[k].Pattern), off(vhosts[k].Pattern), arr(name), off(name), len(vhosts[k].Pattern), len(name))))
+//@   loop 1
+//@     invariant forall k int :: 0 <= k && k <= rangeindex ==>
+//@       !globR(arr(vhosts[k].Pattern), off(vhosts[k].Pattern), arr(name), off(name), len(vhosts[k].Pattern), len(name))
